@@ -361,6 +361,49 @@ func execOp(line string) (res string) {
 			return "err"
 		}
 		return "ok " + hx(out)
+	case "ecies.seq":
+		// several encryptions to the SAME recipient in a row on one tape, all ciphertexts held to the end (ephemeral
+		// keys or derived keys remembered between calls would repeat)
+		if !argc(4) {
+			return bad
+		}
+		t, ok := replayTape(a[3])
+		if !ok {
+			return bad
+		}
+		pub := pubOf(Nn(0), Nn(1))
+		var outs [][]byte
+		failed := false
+		withTape(t, func() {
+			for _, mh := range strings.Split(a[2], ",") {
+				m, ok := unhex(mh)
+				if !ok {
+					failed = true
+					return
+				}
+				o, err := bec.Encrypt(pub, m)
+				if err != nil {
+					outs = append(outs, nil)
+					return
+				}
+				outs = append(outs, o)
+			}
+		})
+		if failed {
+			return bad
+		}
+		if t.mismatch {
+			return "tape-mismatch"
+		}
+		res := "ok"
+		for _, o := range outs {
+			if o == nil {
+				res += " e"
+			} else {
+				res += " " + hx(o)
+			}
+		}
+		return res
 	case "ecies.dec":
 		if !argc(2) {
 			return bad
